@@ -124,16 +124,13 @@ static int encodeAsRaw(KSI_TLV *tlv) {
 		goto cleanup;
 	}
 
-	if (tlv->buffer == NULL) {
-		buf_size = 0xffff + 1;
-		buf = KSI_calloc(buf_size, 1);
-		if (buf == NULL) {
-			KSI_pushError(tlv->ctx, res = KSI_OUT_OF_MEMORY, NULL);
-			goto cleanup;
-		}
-	} else {
-		buf = tlv->buffer;
-		buf_size = tlv->buffer_size;
+	/* The nested elements may point into the existing buffer (and may have been edited since they
+	 * were parsed): always encode into a new buffer and release the old one afterwards. */
+	buf_size = 0xffff + 1;
+	buf = KSI_calloc(buf_size, 1);
+	if (buf == NULL) {
+		KSI_pushError(tlv->ctx, res = KSI_OUT_OF_MEMORY, NULL);
+		goto cleanup;
 	}
 
 	payloadLength = buf_size;
@@ -143,14 +140,15 @@ static int encodeAsRaw(KSI_TLV *tlv) {
 		goto cleanup;
 	}
 
+	KSI_TLVList_free(tlv->nested);
+	tlv->nested = NULL;
+
+	KSI_free(tlv->buffer);
 	tlv->buffer = buf;
 	tlv->buffer_size = buf_size;
 
 	tlv->datap = buf;
 	tlv->datap_len = payloadLength;
-
-	KSI_TLVList_free(tlv->nested);
-	tlv->nested = NULL;
 
 	buf = NULL;
 
